@@ -34,6 +34,15 @@ func Cfg() *ipa.IPAConfig {
 	return cfgVal
 }
 
+// pcall is one API call of a history / plan (C12, C13), described by small parameters.
+type pcall struct {
+	Op   string `json:"op"`
+	Seed uint64 `json:"seed"`
+	N    int    `json:"n,omitempty"`
+	K    int    `json:"k,omitempty"`
+	Flag bool   `json:"flag,omitempty"`
+}
+
 var rMinus1 = new(big.Int).Sub(ref.R, big.NewInt(1))
 
 // ---------------------------------------------------------------- polynomials
